@@ -151,11 +151,7 @@ theorem seal_ok : ∃ ss, sealState env s0 none = .ok ss := by
     (fun _ => ⟨List.nodup_nil, List.nodup_nil, fun a => rfl, fun e he => nomatch he⟩)
     (fun tx htx => nomatch htx) List.nodup_nil
     (fun k p h => by rw [hpools] at h; cases h)
-    (fun k _ p h => by
-      rcases createBuiltins_get s0 k with e | e
-      · rw [e, hpools] at h; cases h
-      · rw [e] at h; cases h; exact builtinDefault_facts.2.2.1)
-    (fun p h => by rw [hpools] at h; cases h) (fun k _ p h => by rw [hpools] at h; cases h)
+    (fun p h => by rw [hpools] at h; cases h)
     (by show melInflow [] ≤ 2 ^ 124; decide) (by show 0 + 0 + 2 ^ 21 ≤ 2 ^ 127; decide)
     (by show STAKE_EPOCH - 1 < TIP_909_HEIGHT + 128 * SUBSIDY_HALVING; decide)
 
